@@ -390,7 +390,7 @@ func (c *checker) explore(fn *ssa.Function, ref harnessRef) *HarnessRun {
 	h := &HarnessRun{eng: c.eng, name: ref.name, fn: fn, seed: c.seed,
 		outcomes: map[string]int{}, outcomeMsg: map[string]string{}, violations: map[string]*Violation{}, reached: map[string]*Violation{},
 		touched: map[*ssa.Function]bool{}, bounds: map[string]string{}, stubs: map[string]bool{}, assumptions: map[string]bool{},
-		asserts: map[string]int{}, knownSeen: map[string]bool{}}
+		asserts: map[string]int{}, assertsFolded: map[string]int{}, knownSeen: map[string]bool{}}
 	if c.tier == "thorough" {
 		h.tier = 1
 		h.maxPaths = 5000000
@@ -559,7 +559,7 @@ func (e *Engine) runInits() {
 		choices: map[string]int{}, nameCount: map[string]int{}, maxSteps: 1 << 62, unwind: 1 << 30, allocLimit: 1 << 30,
 		mutex: map[string]int{}, hashes: map[*Obj]*hashGhost{}, ghostVal: map[string]Value{}, isInit: true, bypass: map[*ssa.Function]bool{}}
 	r.h = &HarnessRun{eng: e, name: "init", outcomes: map[string]int{}, outcomeMsg: map[string]string{}, bounds: map[string]string{},
-		stubs: map[string]bool{}, assumptions: map[string]bool{}, asserts: map[string]int{}}
+		stubs: map[string]bool{}, assumptions: map[string]bool{}, asserts: map[string]int{}, assertsFolded: map[string]int{}}
 	for _, sp := range order {
 		path := sp.Pkg.Path()
 		if skip[path] || strings.HasPrefix(path, "runtime/") || strings.HasPrefix(path, "internal/") || strings.HasPrefix(path, "vendor/") ||
@@ -657,6 +657,7 @@ func (c *checker) writeEvidenceFull(results []*HarnessRun, validated, violations
 		Outcomes    map[string]int    `json:"path_outcomes"`
 		Bounds      map[string]string `json:"bounds"`
 		Asserts     map[string]int    `json:"assertions_checked"`
+		Folded      map[string]int    `json:"assertions_folded_by_normal_forms"`
 		Reached     []string          `json:"vacuity_witnesses_reached"`
 		Stubs       []string          `json:"stubs"`
 		Assumptions []string          `json:"assumptions"`
@@ -667,7 +668,7 @@ func (c *checker) writeEvidenceFull(results []*HarnessRun, validated, violations
 	states, trans := int64(0), int64(0)
 	assumptions := map[string]bool{}
 	for _, hr := range results {
-		he := hEv{Name: hr.name, Paths: hr.paths, Outcomes: hr.outcomes, Bounds: hr.bounds, Asserts: hr.asserts, Aborted: hr.aborted}
+		he := hEv{Name: hr.name, Paths: hr.paths, Outcomes: hr.outcomes, Bounds: hr.bounds, Asserts: hr.asserts, Folded: hr.assertsFolded, Aborted: hr.aborted}
 		for l, w := range hr.reached {
 			he.Reached = append(he.Reached, l)
 			if len(samples) < 12 {
